@@ -120,6 +120,7 @@ theorem inv_step (env : Env) (s : St) (h : UidInv env s) (op : Op) (hco : Cohere
     | badEtag => simpa [Spec.apply] using h.unique
     | noSuchItem => simpa [Spec.apply] using h.unique
     | locked => simpa [Spec.apply] using h.unique
+    | failed => simpa [Spec.apply] using h.unique
   | del n e =>
     simp only [step]
     refine ⟨by rw [deleteOne_cache]; exact h.cache, ?_⟩
